@@ -86,6 +86,14 @@ def childChanges (path : List Str) : List Info → List Info → List Change
     | none => addChanges (path ++ [c.name]) c none false ++ childChanges path cs olds
 end
 
+/-- look a relative path up below a list of siblings -/
+def findIn : List Info → List Str → Option Info
+  | _, [] => none
+  | l, [c] => findChild l c
+  | l, c :: c2 :: r => match findChild l c with
+    | some n => findIn n.children (c2 :: r)
+    | none => none
+
 /-- `newRoot.Changes(oldRoot)` -/
 def changes (new old : Info) : List Change := addChanges [] new (some old) false
 
